@@ -30,9 +30,20 @@ List labels on the wire: ARGUMENT lists, like every list the model allocates, ca
 label is never compared; a list VALUE inside data carries the label of tuple(value) and is compared.
 A None among the events (malformed stream) is a member-less cell (1 label_of_None ()).
 
+Group C19 (categorize, tag, split_url_events, simplify_string; Model/ClassifyHeap.v, calls 20..23): the same check with
+harness/c19.py's label tables and engine tables (see "group C19" below).  The annotating functions write the data dicts
+of the listed events IN PLACE: the oracle allows exactly the keys a function owns to differ there (`$category` / `$tags` /
+the six `$` url keys of events that had "url"; everything else, the Events, the argument list, the rules and every
+nested value as before, also when the call raised midway) -- `C19:input-modified-outside-owned`; `C19:sharing`: new
+list of the same Events, `$category` IS one of the rules' category list objects or a new ["Uncategorized"], `$tags` a
+new list per write, split_url_events returns THE argument list, simplify_string a result that reaches no input object.
+The model answers an exception of an in-place function with the heap it reached; the after-state of every input object
+is compared with it.
+
 usable as   python -m harness.theap2 quick | thorough            (evidence/THEAP2.json)
             python -m harness.theap2 replay '<case json>' | <file.json>
-and as      from harness import theap2;  ok = theap2.prepare(ck, "C16");  theap2.heap_check(ck, "C16", have_driver=ok)"""
+and as      from harness import theap2;  ok = theap2.prepare(ck, "C16");  theap2.heap_check(ck, "C16", have_driver=ok)
+            (likewise "C19")"""
 import copy
 import itertools
 import json
@@ -63,7 +74,13 @@ RULE = ("per function a deterministic corpus (small layouts over a data alphabet
         "sharing ONE data dict; data dicts sharing ONE list value object, all or only the first two of equal content; the "
         "same list as both arguments of concat; two lists sharing Events; combinations), then seeded random layouts with "
         "random aliasing, plus malformed lists (a plain dict / None among the events) and unhashable merge values ([[1]], "
-        "a dict holding a list); non-trivial = distinct case with some aliasing among the inputs and a non-empty result")
+        "a dict holding a list); C19: layouts over a data alphabet with pre-existing `$category` / `$tags` / `$domain` values "
+        "(string, list-of-strings object, number), nested containers, every url / title / canary string of harness/c19.py's "
+        "pools, rule lists with ties, empty categories, select_keys, one category list object serving two rules or being a "
+        "value in event data, urls that make urlparse raise after earlier events were annotated, simplify with missing / "
+        "non-str values midway and strings rewritten repeatedly through shared dicts, x the aliasing configurations, then "
+        "seeded random events and rules (c19's generators); non-trivial = distinct case with some aliasing among the inputs "
+        "and a non-empty result")
 
 
 # ---------------------------------------------------------------------------
@@ -1841,6 +1858,33 @@ N_RANDOM = {"quick": 190, "thorough": 24000}       # per function
 N_RANDOM_GROUP = {"C19": {"quick": 380, "thorough": 36000}}
 
 
+ASSUME_C16 = [
+    "heap model of the C16 transforms (Model/GroupHeap.v, Model/DictHeap.v): one cell per mutable Python object (list, "
+    "Event, data dict with its keys and scalar values in insertion order, list value); keys and immutable scalars are "
+    "labels assigned by the harness (values: one per Python ==/hash class of the hashable-ised value); data is acyclic "
+    "and JSON-like; values are str/int/float/bool/None and flat lists of those (a nested list / a dict holding a list "
+    "is generated rarely: unhashable in merge on both sides; a dict WITHOUT mutable members as a merge value is outside "
+    "the model: it would hash it)",
+    "chunk_events_by_key: key != 'subevents'; sum_durations: exact integer sum vs the code's float route within 1 us",
+]
+ASSUME_C19 = [
+    "heap model of the C19 transforms (Model/ClassifyHeap.v): values, keys, rulespecs and the engine tables (re, urlparse, "
+    "www slicing, the three substitutions of simplify_string) are harness/c19.py's (labels; tabulated per case from the "
+    "real libraries); a flat list of strings is a cell of its own, any other nested list / dict an opaque cell; a category "
+    "is a flat list of strings and never the dict it is stored into; a url value is not a member-less container other "
+    "than a list of strings (the tables could not name it)",
+    "the annotating functions may write the keys they own into the data dicts of the listed events and nothing else: "
+    "decided on the implementation by the oracle (also when the call raised midway)",
+]
+ASSUME_BOTH = [
+    "'the inputs are not modified' and 'what the result shares with them' are decided on the implementation by the "
+    "oracle (content + member identities of every reachable input object before/after; the result's objects by identity)",
+    "allocation order is not observable: model locations and Python objects are matched by a bijection found by a "
+    "simultaneous walk, not by address; objects the model allocates but the result does not reach (merge's "
+    "intermediate Events, an unused ['Uncategorized']) are not compared",
+]
+
+
 def heap_check(ck, group, have_driver=True, n_random=None):
     """the whole check for a group ("C16"), one function or a list of them; `ck` is the caller's Check, the driver
     is build/THEAP_<prop>/driver (prepare)"""
@@ -1921,20 +1965,10 @@ def heap_check(ck, group, have_driver=True, n_random=None):
                               limit=10 ** 9)
         if disagreed:
             ck.count(w + ":disagreements", disagreed)
-    ck.assumptions += [
-        "heap model of the C16 transforms (Model/GroupHeap.v, Model/DictHeap.v): one cell per mutable Python object (list, "
-        "Event, data dict with its keys and scalar values in insertion order, list value); keys and immutable scalars are "
-        "labels assigned by the harness (values: one per Python ==/hash class of the hashable-ised value); data is acyclic "
-        "and JSON-like; values are str/int/float/bool/None and flat lists of those (a nested list / a dict holding a list "
-        "is generated rarely: unhashable in merge on both sides; a dict WITHOUT mutable members as a merge value is outside "
-        "the model: it would hash it)",
-        "'the inputs are not modified' and 'what the result shares with them' are decided on the implementation by the "
-        "oracle (content + member identities of every reachable input object before/after; the result's objects by identity)",
-        "allocation order is not observable: model locations and Python objects are matched by a bijection found by a "
-        "simultaneous walk, not by address; objects the model allocates but the result does not reach (merge's "
-        "intermediate Events) are not compared",
-        "chunk_events_by_key: key != 'subevents'; sum_durations: exact integer sum vs the code's float route within 1 us",
-    ]
+    props = {FUNCS[w].prop for w in which}
+    for x in (ASSUME_C16 if "C16" in props else []) + (ASSUME_C19 if "C19" in props else []) + ASSUME_BOTH:
+        if x not in ck.assumptions:
+            ck.assumptions.append(x)
 
 
 PROPS = ["Props/C16own.v", "Props/C19own.v"]
